@@ -7,30 +7,24 @@ From Ice Require Import Model.AgentTypes Model.AgentCore Model.AgentMonitors Gen
 Import ListNotations.
 Local Open Scope Z_scope.
 
-(* In a closed state every operation except RenominateCandidate leaves the agent state unchanged
-   (Advance only moves the harness clock) and outputs exactly the closed error / the argument
-   validation result / nothing / nil for a repeated Close. *)
+(* In a closed state EVERY operation leaves the agent state unchanged (Advance only moves the
+   harness clock) and outputs exactly the closed error / the argument validation result / nothing
+   (inbound traffic, ticks) / nil for a repeated Close: no send, no notification, no delivery. *)
 Theorem C08_closed_state_is_final : forall cfg s o,
-  s_closed s = true -> is_renominate o = false ->
+  s_closed s = true ->
   step cfg s o = (closed_next o s, closed_outs o)
   /\ agent_view (closed_next o s) = agent_view s
   /\ Forall is_ret (closed_outs o).
 Proof. exact closed_state_is_final. Qed.
 Print Assumptions C08_closed_state_is_final.
 
-(* Every operation, RenominateCandidate included, keeps a closed agent closed, never notifies a
-   state / selected pair / candidate, never delivers data, never sends application data; the
-   lifecycle and delivery part of the state does not move.  _partial: RenominateCandidate (the one
-   public method that never consults the closed flag) may still register a transaction and attempt
-   a STUN send: see Findings/F_C08_renominate.v and the monitor check
-   C08.later_calls_closed_error:RenominateCandidate on the real agent. *)
-Theorem C08_closed_agent_is_quiet_partial : forall cfg s o,
+Theorem C08_closed_agent_is_quiet : forall cfg s o,
   s_closed s = true ->
   s_closed (fst (step cfg s o)) = true /\
-  Forall (quiet_out (is_renominate o)) (snd (step cfg s o)) /\
-  life_part (fst (step cfg s o)) = life_part (closed_next o s).
+  Forall quiet_out (snd (step cfg s o)) /\
+  agent_view (fst (step cfg s o)) = agent_view s.
 Proof. exact closed_step_quiet. Qed.
-Print Assumptions C08_closed_agent_is_quiet_partial.
+Print Assumptions C08_closed_agent_is_quiet.
 
 (* Close from any non-closed state closes, releases the candidates, and (on reachable states,
    where Closed is entered by Close only) notifies Closed right before returning nil. *)
@@ -62,21 +56,19 @@ Theorem C08_close_is_final : forall cfg lu lp pre post,
 Proof. exact close_is_final_run. Qed.
 Print Assumptions C08_close_is_final.
 
-(* once closed, the rest of any history is quiet; without RenominateCandidate the agent state is
-   frozen and every output is the fixed closed answer *)
+(* once closed, the rest of any history is quiet, the agent state is frozen and every output is
+   the fixed closed answer *)
 Theorem C08_closed_forever : forall cfg ops s,
   s_closed s = true ->
   s_closed (fst (run_from cfg s ops)) = true /\
-  Forall (Forall (quiet_out true)) (snd (run_from cfg s ops)) /\
-  (Forall (fun o => is_renominate o = false) ops ->
-   agent_view (fst (run_from cfg s ops)) = agent_view s /\
-   snd (run_from cfg s ops) = map closed_outs ops).
+  Forall (Forall quiet_out) (snd (run_from cfg s ops)) /\
+  agent_view (fst (run_from cfg s ops)) = agent_view s /\
+  snd (run_from cfg s ops) = map closed_outs ops.
 Proof. exact closed_forever. Qed.
 Print Assumptions C08_closed_forever.
 
 Theorem C08_after_close_results : forall cfg lu lp pre post o,
   In Close pre ->
-  Forall (fun o => is_renominate o = false) post -> is_renominate o = false ->
   let s := fst (run cfg lu lp (pre ++ post)) in
   s_closed s = true /\ step cfg s o = (closed_next o s, closed_outs o).
 Proof. exact after_close_results. Qed.
@@ -86,7 +78,8 @@ Print Assumptions C08_after_close_results.
 Example C08_final_example :
   let pre := [AddLocal demo_cL; AddRemote demo_cR; Start true 7 8] in
   s_closed (fst (run demo_cfg 1 2 pre)) = false /\
-  snd (run demo_cfg 1 2 (pre ++ Close :: [Write (mkPayload 1 10 false); Read; Restart 3 4; Close; Tick])) =
+  snd (run demo_cfg 1 2 (pre ++ Close :: [Write (mkPayload 1 10 false); Read; Restart 3 4; Renominate demo_cL demo_cR 5; Close; Tick])) =
   snd (run demo_cfg 1 2 pre) ++
-  [[OState ConnectionStateClosed; ORet ROk]; [ORet RErrClosed]; [ORet RErrClosed]; [ORet RErrClosed]; [ORet ROk]; []].
+  [[OState ConnectionStateClosed; ORet ROk]; [ORet RErrClosed]; [ORet RErrClosed]; [ORet RErrClosed];
+   [ORet RErrClosed]; [ORet ROk]; []].
 Proof. vm_compute. split; reflexivity. Qed.
